@@ -64,6 +64,7 @@ structure PState where
   cycles : List (Nat × Cyc) := []
   stereoAtoms : List (Nat × Bool) := []
   stereoBonds : SBonds := []
+  starts : List Nat := []         -- set: atoms without a preceding atom
   previous : Option PB := none
   log : List String := []
   deriving Repr, Inhabited
@@ -77,30 +78,34 @@ def arom4 (x y : Nat) : Nat := if x == y && y == 8 then 4 else 1
 def closeBond (st : PState) (strong : Bool) (c : Cyc) : Except Err (Nat × SBonds × Option PB × List String) :=
   let a := c.atom
   let l := st.lastNum
+  -- `4 if atoms_types[last_num] == atoms_types[a] == 8 else 1`
+  let implicit (k : Nat → Except Err (Nat × SBonds × Option PB × List String)) :=
+    match st.types[l]?, st.types[a]? with
+    | some x, some y => k (arom4 x y)
+    | _, _ => .error (.crash "IndexError")
   match c.bond, st.previous with
   | some ob, none =>
     match ob with
-    | .dir b => .ok (1, sbSet st.stereoBonds a l b, none, st.log)
+    | .dir b => implicit fun o => .ok (o, sbSet (sbSet st.stereoBonds a l b) l a (!b), none, st.log)
     | .bond o => if strong then .error notEqual
                  else .ok (o, st.stereoBonds, none, st.log ++ ["ignored difference in cycle bonds"])
     | .dot => .error (.crash "ModelShape")
   | some ob, some pv =>
     match pv, ob with
-    | .dir b, .dir o => .ok (1, sbSet (sbSet st.stereoBonds a l o) l a b, none, st.log)
-    | .dir b, .bond o => if o != 1 then .error notEqual else .ok (1, sbSet st.stereoBonds l a b, none, st.log)
-    | .bond b, .dir o => if b != 1 then .error notEqual else .ok (b, sbSet st.stereoBonds a l o, none, st.log)
+    | .dir b, .dir o => implicit fun x => .ok (x, sbSet (sbSet st.stereoBonds a l o) l a b, none, st.log)
+    | .dir b, .bond o => if o != 1 then .error notEqual
+                         else .ok (1, sbSet (sbSet st.stereoBonds a l (!b)) l a b, none, st.log)
+    | .bond b, .dir o => if b != 1 then .error notEqual
+                         else .ok (b, sbSet (sbSet st.stereoBonds a l o) l a (!o), none, st.log)
     | .bond b, .bond o => if b != o then .error notEqual else .ok (b, st.stereoBonds, none, st.log)
     | _, _ => .error (.crash "ModelShape")
   | none, some pv =>
     match pv with
-    | .dir b => .ok (1, sbSet st.stereoBonds l a b, none, st.log)
+    | .dir b => implicit fun o => .ok (o, sbSet (sbSet st.stereoBonds l a b) a l (!b), none, st.log)
     | .bond b => if strong then .error notEqual
                  else .ok (b, st.stereoBonds, none, st.log ++ ["ignored difference in cycle bonds"])
     | .dot => .error (.crash "ModelShape")
-  | none, none =>
-    match st.types[l]?, st.types[a]? with
-    | some x, some y => .ok (arom4 x y, st.stereoBonds, none, st.log)
-    | _, _ => .error (.crash "IndexError")
+  | none, none => implicit fun o => .ok (o, st.stereoBonds, none, st.log)
 
 /-- one iteration of `for token_type, token in tokens:` -/
 def pstep (strong : Bool) (st : PState) (t : Tok) : Except Err PState :=
@@ -146,6 +151,7 @@ def pstep (strong : Bool) (st : PState) (t : Tok) : Except Err PState :=
   | .atom ty tok =>
     let n := st.atomNum
     let l := st.lastNum
+    let isStart : Bool := st.atoms.isEmpty || st.previous == some .dot
     let linked : Except Err (List (Nat × Nat × Nat) × Order × SBonds × Option PB) :=
       if st.atoms.isEmpty then .ok (st.bonds, st.order, st.stereoBonds, st.previous)
       else
@@ -169,6 +175,7 @@ def pstep (strong : Bool) (st : PState) (t : Tok) : Except Err PState :=
                     stereoAtoms := match tok.stereo with
                       | some s => st.stereoAtoms ++ [(n, s)]
                       | none => st.stereoAtoms,
+                    starts := if isStart then st.starts ++ [n] else st.starts,
                     atoms := st.atoms ++ [{ tok with stereo := none }],
                     types := st.types ++ [ty],
                     lastNum := n, atomNum := n + 1 }
